@@ -22,7 +22,9 @@ CONV = {0: "numpy_array_to_live_points", 1: "numpy_array_to_live_points(1-d)", 2
         9: "dict_to_live_points(extra dict)", 10: "live_points_to_array", 11: "live_points_to_array(copy)",
         12: "live_points_to_dict", 13: "live_points_to_dict(all fields)", 14: "DataFrame(live_points_to_dict)",
         15: "dict_roundtrip", 16: "array_roundtrip", 17: "frame_roundtrip", 18: "unstructured_view",
-        19: "Model.unstructured_view", 20: "unstructured_view(other names)", 21: "view_layout"}
+        19: "Model.unstructured_view", 20: "unstructured_view(other names)", 21: "view_layout",
+        22: "live_points_to_array(names in any order)", 23: "live_points_to_array(names in any order, copy)",
+        24: "live_points_to_dict(names in any order)", 25: "empty_structured_array(dtype in any order)"}
 
 NAME_POOL = ["x", "y", "z", "x_0", "x_1", "mass_1", "mass_2", "theta_jn", "_p", "a1", "X", "Y", "lambda_", "logl",
              "logp", "It", "iT", "logLL", "ra", "dec", "psi", "phase", "chirp_mass", "mass_ratio", "dL", "t_c",
@@ -157,6 +159,39 @@ def gen_cases(chk):
                     c["vnames"] = rng.sample(names, rng.randint(1, len(names)))
                 elif r < 0.65:
                     c["vnames"] = names + (["logP"] if nsp else [])
+                # `names` arguments that are permutations / subsets of the stored fields, and a caller-supplied
+                # dtype with the fields in another order (non-sampling fields not trailing, `it` anywhere,
+                # extras not in registration order)
+                exn = [e[0] for e in ref_extras(h)] if nsp else []
+                f8 = list(names) + (["logP", "logL"] + exn if nsp else [])
+                allf = f8 + (["it"] if nsp else [])
+                r = rng.random()
+                if r < 0.4 and len(names) >= 2:
+                    k = rng.randint(2, len(names))
+                    q = rng.sample(names[:k], k)
+                    if q == names[:k]:
+                        q = q[::-1]
+                    c["qnames"] = q
+                elif r < 0.7:
+                    c["qnames"] = rng.sample(f8, rng.randint(1, len(f8)))
+                elif r < 0.85:
+                    c["qnames"] = list(names)[::-1]
+                else:
+                    c["qnames"] = list(names)
+                c["dnames"] = rng.sample(allf, rng.randint(1, len(allf)))
+                if nsp:
+                    kinds = {k: "f8" for k in f8}
+                    kinds["it"] = "i4"
+                    r = rng.random()
+                    if r < 0.4:
+                        order = rng.sample(allf, len(allf))
+                    elif r < 0.6:
+                        order = ["logP", "logL", "it"] + exn[::-1] + list(names)
+                    elif r < 0.8:
+                        order = list(names) + exn[::-1] + ["it", "logL", "logP"]
+                    else:
+                        order = list(names)[::-1] + ["logL", "it", "logP"] + exn
+                    c["fields"] = [[k, kinds[k]] for k in order]
                 # an extra dictionary exercising numpy broadcasting / length mismatches
                 if rng.random() < 0.35:
                     N = rng.choice([0, 1, 2, 3])
@@ -296,6 +331,34 @@ def direct_conv(c, r):
     if o is not None:
         if o["t"] != "arr" or o["names"] != list(c["names"]) or o["rows"] != data:
             bad.append(("DataFrame(live_points_to_dict):values", f"{o} expected columns {c['names']} rows {data}"))
+    byname = [dict(zip(names, row)) for row in full]
+    for cid in (22, 23):
+        o = obs.get(str(cid))
+        if o is not None:
+            want = [[rowd[k] for k in c["qnames"]] for rowd in byname]
+            if o["t"] != "mat":
+                bad.append((f"{CONV[cid]}:raised-or-type", f"{CONV[cid]} names={c['qnames']}: {o}"))
+            elif o["m"] != want:
+                bad.append((f"{CONV[cid]}:values-under-wrong-names",
+                            f"{CONV[cid]} names={c['qnames']} on fields {names}: {o['m']} expected {want}"))
+    o = obs.get("24")
+    if o is not None:
+        want = [[k, [rowd[k] for rowd in byname]] for k in c["dnames"]]
+        if o["t"] != "dict" or [[k, v] for k, v, _ in o["d"]] != want:
+            bad.append(("live_points_to_dict(names in any order):values-under-wrong-names",
+                        f"names={c['dnames']}: {o} expected {want}"))
+    o = obs.get("25")
+    if o is not None:
+        dflt = dict(zip(names, [["f", NAN]] * d + tail))
+        wantn = [k for k, _ in c["fields"]]
+        wantrow = [dflt[k] for k in wantn]
+        if o["t"] != "arr":
+            bad.append(("empty_structured_array(dtype in any order):raised", f"dtype={c['fields']}: {o}"))
+        elif o["names"] != wantn or o["kinds"] != [kd for _, kd in c["fields"]]:
+            bad.append(("empty_structured_array(dtype in any order):dtype", f"dtype={c['fields']}: {o['names']} {o['kinds']}"))
+        elif o["rows"] != [wantrow] * n:
+            bad.append(("empty_structured_array(dtype in any order):defaults-under-wrong-names",
+                        f"dtype={c['fields']}: rows {o['rows'][:2]} expected {wantrow}"))
     o = obs.get("21")
     if o is not None:
         item = 8 * d + (8 + 8 + 4 + 8 * (len(names) - d - 3) if c["nsp"] else 0)
@@ -414,7 +477,11 @@ def cCase(c, r):
     data = cL(cRow([["f", canon(b)] for b in row]) for row in c["data"])
     txt = ("{| c_hist := " + cL(cOp(o) for o in c["hist"]) + "; c_names := " + cL(map(cStr, c["names"]))
            + "; c_nsp := " + cB(c["nsp"]) + "; c_data := " + data + "; c_dx := " + cL(dx)
-           + "; c_vnames := " + cL(map(cStr, c.get("vnames") or [])) + ";\n   c_uniq := " + cL(uniq)
+           + "; c_vnames := " + cL(map(cStr, c.get("vnames") or []))
+           + "; c_qnames := " + cL(map(cStr, c.get("qnames") or []))
+           + "; c_dnames := " + cL(map(cStr, c.get("dnames") or []))
+           + "; c_fields := " + cL(f"({cStr(k)}, {cKind(kd)})" for k, kd in (c.get("fields") or []))
+           + ";\n   c_uniq := " + cL(uniq)
            + "; c_refs := " + cL(refs) + " |}")
     return txt, unencodable
 
